@@ -149,7 +149,7 @@ def gen_cfg(rng, combo=None, finite=None, n_max=12, allow_not_random=True, u=Non
         kw["f"] = rng.choice((0, 0, 2.0 ** -10, 0.125, 1.0, 100.0))
         kw["minsd"] = rng.choice((2.0 ** -20, 2.0 ** -10, 1.0, 100.0))
     if estim == "optimal_comparison":
-        kw["rate_error_2"] = rng.choice((2.0 ** -20, 2.0 ** -13, 2.0 ** -10, 2.0 ** -7, 2.0 ** -4, 0.25, 0.3125))
+        kw["rate_error_2"] = rng.choice((2.0 ** -20, 2.0 ** -13, 2.0 ** -10, 2.0 ** -7, 2.0 ** -4, 0.25, 0.3125, 0, 0))  # 0: the Audit default
     if bet == "fixed_bet":
         kw["lam"] = (1 / u) * rng.choice((2.0 ** -10, 0.25, 0.5, 0.75, 1.0))
     if bet == "agrapa":
